@@ -24,7 +24,7 @@ package c18
 //   NewestWins        every call returned => `local` is the last snapshot
 //
 // The same steps are written as NDJSON and validated by TLC against
-// Trace_Persist.tla (the invariants of the spec on the observed states).
+// Trace_BlPersist.tla (the invariants of the spec on the observed states).
 
 import (
 	"bufio"
@@ -80,6 +80,7 @@ type pInput struct {
 	Schedules [][]string        `json:"schedules"`
 	TraceOut  string            `json:"traceOut"`
 	StrictDir bool              `json:"strictDir"`
+	Model     string            `json:"model"` // name of the MC_Persist configuration (W2, W2b, W3)
 }
 
 type pArrival struct {
@@ -241,12 +242,12 @@ func (r *pRun) violate(pred, what string, extra map[string]any) {
 		r.tainted = true
 		return
 	}
-	rep := map[string]any{"driver": "persist", "schedule": r.hist, "prog": r.in.Prog, "shape": r.in.Shape, "events": r.events}
+	rep := map[string]any{"driver": "persist", "schedule": r.hist, "prog": r.in.Prog, "initMem": r.in.InitMem, "shape": r.in.Shape, "events": r.events}
 	for k, v := range extra {
 		rep[k] = v
 	}
 	r.verdicts++
-	r.res.Violate("persist/"+pred, fmt.Sprintf("BlockList %s under schedule %v: %s", pred, r.hist, what), rep)
+	r.res.Violate("persist/"+r.in.Model+"/"+pred, fmt.Sprintf("BlockList %s under schedule %v: %s", pred, r.hist, what), rep)
 }
 
 func (r *pRun) pcs() ([]string, []int, int) {
